@@ -206,3 +206,13 @@ def run(rep: Report, prog: Program, tier: str) -> None:
     from .common import sign_rule, timer_rule
     timer_rule(rep, prog, PROP, "C05-TIMER")
     sign_rule(rep, prog, PROP, "C05-SIGN", sorted(ai.analysed_funcs))
+
+    # (g) premises of the exemption table: an exempted assertion / operation is only unreachable from the network while the rule its
+    # reason cites holds, so those rules are part of this check
+    from .common import import_rules
+    import_rules(rep, prog, tier, PROP, "C05-PREMISE-DUP", "C01", ["C01-DUP"],
+                 "premise of the exempted assertion in InboundStream.add_chunk: _mark_received() rejects every TSN that is already queued (rule C01-DUP)", 2)
+    import_rules(rep, prog, tier, PROP, "C05-PREMISE-LEN", "C07", ["C07-LEN"],
+                 "premise of the exempted assertion in pack_rtcp_packet: every RTCP payload is a multiple of 4 bytes (rule C07-LEN)", 1)
+    import_rules(rep, prog, tier, PROP, "C05-PREMISE-BOUND", "C10", ["C10-BOUND"],
+                 "premise of the exempted assertion in JitterBuffer.remove: the ring never changes its size (rule C10-BOUND)", 2)
